@@ -1,4 +1,4 @@
-CONSTANTS Variant = "code"
+CONSTANTS Variant = "code"  ALens = {"natural"}  Slim = FALSE
 SPECIFICATION Spec
 INVARIANTS SignedPartsSame Export
 CHECK_DEADLOCK FALSE
